@@ -16,6 +16,7 @@ KINDS = {
     "broker": dict(cmd="broker", module="BrokerTrace", cfg="BrokerTrace.cfg"),
     "client": dict(cmd="client", module="ClientTrace", cfg="ClientTrace.cfg"),
     "service": dict(cmd="service", module="ServiceTrace", cfg="ServiceTrace.cfg"),
+    "conn": dict(cmd="conn-conc", module="ConnTrace", cfg="ConnTrace.cfg"),
 }
 
 
@@ -212,15 +213,16 @@ def trace_of(events, tr):
     return [e for e in events.values() if e["tr"] == tr]
 
 
-def check_family(run, prop, scripts, tag, also=(), kind="broker", known=None):
+def check_family(run, prop, scripts, tag, also=(), kind="broker", known=None, relaxed=None):
     """Drive + validate the scripts; re-drive rejected ones slowly; report violations tagged with `prop`.
     Returns (accepted_count, rejected list)."""
     tfile, crashes = run_scripts(run, scripts, tag, kind=kind)
     byid = {s["id"]: s for s in scripts}
     for c in crashes:
         s = byid.get(c["script"])
-        if prop == "C14" or "C14" in also:
-            run.violation("the broker process %s while running scenario %s" % ("panicked" if c["kind"] == "panic" else "hung", c["script"]),
+        if prop in ("C14", "C19") or "C14" in also:
+            run.violation("the %s %s while running scenario %s" % ("broker process" if kind == "broker" else "driver process (gomqtt code under test)",
+                                                                  "panicked" if c["kind"] == "panic" else "hung", c["script"]),
                           files={"script.json": s or {}, "stderr.txt": c["stderr"]})
         else:
             run.note("driver %s in scenario %s (reported by the C14 check)" % (c["kind"], c["script"]))
@@ -241,8 +243,20 @@ def check_family(run, prop, scripts, tag, also=(), kind="broker", known=None):
                     if tr in res3 and res3[tr]["ok"]:
                         run.known(key, text)
                         res2[tr] = {"ok": True, "known": key}
+        # property-preserving relaxations of the specification (shown by model checking to keep every property): a trace that
+        # only the strict model rejects differs in discipline, not in anything the property states
+        still = [tr for tr in rejected if tr in res2 and not res2[tr]["ok"]]
+        if still and relaxed:
+            res4, _, _ = validate(run, t2, tag + ".relaxed", kind=kind, dev=tuple(relaxed))
+            for tr in still:
+                if tr in res4 and res4[tr]["ok"]:
+                    run.note("scenario %d is rejected by the strict specification at %s but accepted by the relaxed one (%s), which keeps every "
+                             "property: not a violation" % (tr, res2[tr]["event"].get("ev"), "+".join(relaxed)))
+                    res2[tr] = {"ok": True, "relaxed": True}
         for tr in rejected:
-            if tr in res2 and res2[tr].get("known"):
+            if tr in res2 and res2[tr].get("relaxed"):
+                final[tr] = {"ok": True, "relaxed": True}
+            elif tr in res2 and res2[tr].get("known"):
                 final[tr] = {"ok": True, "known": res2[tr]["known"]}
             elif tr in res2 and res2[tr]["ok"]:
                 run.note("scenario %d rejected at %s on the first run but accepted when re-driven slowly (timing of the driver, not reported)"
@@ -265,12 +279,12 @@ def check_family(run, prop, scripts, tag, also=(), kind="broker", known=None):
             if ev.get("ev") in HARNESS_EVENTS:
                 raise lib.Infra("trace %d rejected at harness event %s (position %d): modelling/harness error, not a verdict about gomqtt\n%s"
                                 % (tr, ev.get("ev"), x["pos"], json.dumps(ev)[:400]))
-            fb = fallback(ev) if kind == "broker" else fallback_client(ev)
+            fb = fallback(ev) if kind == "broker" else "C19" if kind == "conn" else fallback_client(ev)
             tags = {fb} if fb else set()
             names = ["(no action of the specification produces this event: %s)" % ev.get("ev")]
         x["tags"], x["names"] = sorted(tags), names
         out.append((tr, x))
-        what = "scenario %d (%s): event %d %s rejected by Broker.tla, guard %s" % (
+        what = "scenario %d (%s): event %d %s rejected by the specification, guard %s" % (
             tr, byid.get(tr, {}).get("family"), x["pos"], json.dumps({k: v for k, v in ev.items() if k not in ("tr",)})[:260], ",".join(names))
         if prop in tags:
             run.violation(what, files={"script.json": byid.get(tr, {}), "trace.ndjson": "\n".join(json.dumps(e) for e in x.get("trace", trace_of(events, tr))),
